@@ -340,6 +340,10 @@ func runSeqMap(a *args, res *result) {
 		classes = map[string]bool{"count": true}
 		res.Rule = "sequential: Size and walked table size equal the builtin map's len after every wave / probe batch (all insert paths: empty slot, new bucket, after grow; shrink; Clear)"
 	}
+	if a.extra == "huge" {
+		hugeTables(a, res)
+		return
+	}
 	for i := int64(0); i < a.n; i++ {
 		if !a.mine(i) {
 			continue
@@ -356,5 +360,75 @@ func runSeqMap(a *args, res *result) {
 		if res.Evaluations <= 2 {
 			res.sample(map[string]any{"case": i, "desc": cs.desc, "first_ops": cs.show(min(len(cs.ops)-1, 20))})
 		}
+	}
+}
+
+// hugeTables: one pass per flavour over a table that grows to more than 2^17
+// root buckets and shrinks back to its minimum: several hundred thousand keys
+// stored, every one of them loaded back, Size compared, everything deleted
+// again. Code that only runs for very large tables is otherwise never reached.
+func hugeTables(a *args, res *result) {
+	res.Rule = "one sequential pass per container flavour over a table of more than 131072 root buckets (700 000 / 1 100 000 keys): store all, load every key back, Size, Range count, delete all, Size; distinct = flavour; non-trivial = the table really passed 2^17 buckets"
+	flavors := []struct {
+		fl string
+		n  int
+	}{{"Map", 700000}, {"MapOf[int,val]", 1100000}, {"MapOf[string,val]", 1100000}}
+	for i, f := range flavors {
+		if !a.mine(int64(i)) {
+			continue
+		}
+		if (a.prop == "C03" && f.fl != "Map") || (a.prop == "C04" && f.fl == "Map") {
+			continue
+		}
+		logCase("seqmap huge %s n=%d", f.fl, f.n)
+		m := newMap(mapSpec{Flavor: f.fl, Hint: noHint, NKeys: f.n})
+		bad := func(sig, msg string) {
+			res.violate(violation{Class: "value", Sig: sig, Msg: f.fl + ": " + msg, Case: map[string]any{"case_index": i, "n": f.n}})
+		}
+		for k := 0; k < f.n; k++ {
+			m.Store(k, mkVal(k, int64(k)+1))
+		}
+		miss := 0
+		for k := 0; k < f.n; k++ {
+			if v, ok := m.Load(k); !ok || v != any(mkVal(k, int64(k)+1)) {
+				miss++
+			}
+		}
+		if miss > 0 {
+			bad("entries stored into a very large table are lost", fmt.Sprintf("%d of %d keys missing or wrong after the table grew", miss, f.n))
+		}
+		if n := m.Size(); n != f.n {
+			bad("Size wrong for a very large table", fmt.Sprintf("Size()=%d, %d keys stored", n, f.n))
+		}
+		cnt := 0
+		m.Range(func(int, any) bool { cnt++; return true })
+		if cnt != f.n {
+			bad("Range count wrong for a very large table", fmt.Sprintf("Range visits %d, %d keys stored", cnt, f.n))
+		}
+		st, _ := mapStats(m)
+		res.max("max_buckets", int64(st.RootBuckets))
+		keep := 1000
+		for k := f.n - 1; k >= keep; k-- {
+			m.Delete(k)
+		}
+		miss = 0
+		for k := 0; k < keep; k++ {
+			if _, ok := m.Load(k); !ok {
+				miss++
+			}
+		}
+		if miss > 0 || m.Size() != keep {
+			bad("entries are lost when a very large table shrinks", fmt.Sprintf("%d of %d survivors missing, Size()=%d", miss, keep, m.Size()))
+		}
+		res.Evaluations++
+		res.count("ops", int64(3*f.n))
+		fp := newFP()
+		fp.addStr("huge" + f.fl)
+		if st.RootBuckets > 1<<17 {
+			res.nontrivial(fp.sum())
+		}
+		fp2 := newFP()
+		fp2.addStr("huge-shrunk" + f.fl)
+		res.nontrivial(fp2.sum())
 	}
 }
